@@ -21,6 +21,7 @@ pub(super) enum State<'a, 'p> {
     DiscardValue,
     DoThunk(GcView<ThunkData<'p>>),
     GotThunk(GcView<ThunkData<'p>>, PendingThunk<'p>),
+    ObjectAssertsPending(GcView<ObjectData<'p>>),
     DeepValue,
     SwapLastValues,
     CoerceToString,
